@@ -118,8 +118,8 @@ struct GenOpts
     double mag_cap = 1e3;
 };
 
-static const char *kDataClassNames[] = {"random", "sparse", "collinear_repeated", "large_offset", "big_magnitude", "zero_bc"};
-constexpr int kNumDataClasses = 6;
+static const char *kDataClassNames[] = {"random", "sparse", "collinear_repeated", "large_offset", "big_magnitude", "zero_bc", "axis_aligned"};
+constexpr int kNumDataClasses = 7;
 
 inline Problem genProblem(Rng &r, int order, int dim, int N, const GenOpts &o = GenOpts(), int *pattern_out = nullptr,
                           int *dclass_out = nullptr)
@@ -223,6 +223,21 @@ inline Problem genProblem(Rng &r, int order, int dim, int N, const GenOpts &o = 
                 p.bc.s(d)(j) = r.uni(-1, 1) * o.mag_cap;
                 p.bc.e(d)(j) = r.uni(-1, 1) * o.mag_cap;
             }
+        break;
+    }
+    case 6: // axis-aligned moves (grid paths): between consecutive waypoints only one coordinate changes, the others repeat exactly
+    {
+        VectorXd cur(dim);
+        for (int j = 0; j < dim; ++j)
+            cur(j) = std::round(4 * r.normal()) / 2;
+        for (int i = 0; i <= N; ++i)
+        {
+            if (i > 0)
+                cur(r.range(0, dim - 1)) += (r.coin() ? 1 : -1) * r.uni(0.5, 2.0);
+            p.P.row(i) = cur.transpose();
+        }
+        if (r.coin())
+            fillBC(1.0);
         break;
     }
     default: // zero boundary derivatives, random waypoints
